@@ -43,6 +43,7 @@ type aggregate struct {
 	spec propSpec
 
 	runs              int
+	cases             int
 	events            int
 	inconclusive      int
 	nontriv           int
@@ -86,7 +87,18 @@ func (a *aggregate) add(r *runResult) {
 			a.inconclusiveWhy[stripDigits(firstN(w, 60))]++
 		}
 	}
-	nt := len(r.rep.Inconclusive) == 0 || r.completed
+	if r.rep.CaseCount > 0 {
+		// a run of many cases (programs, sequences, values)
+		a.cases += r.rep.CaseCount
+		for _, h := range r.rep.Cases {
+			a.shapes[h]++
+		}
+		a.nontriv += len(r.rep.Cases)
+		if len(a.samples) < 2 {
+			a.samples = append(a.samples, map[string]interface{}{"run": r.spec.name, "cases": r.rep.CaseCount, "nontrivial_cases": len(r.rep.Cases), "wall_ms": r.wallMs})
+		}
+	}
+	nt := (len(r.rep.Inconclusive) == 0 || r.completed) && r.rep.CaseCount == 0
 	if nt && a.spec.Nontrivial != nil {
 		nt = a.spec.Nontrivial(r.rep.Stats)
 	}
@@ -137,7 +149,8 @@ func firstN(s string, n int) string {
 
 func (a *aggregate) evidence(tier string, seed int64, wall float64) map[string]interface{} {
 	cov := map[string]interface{}{
-		"evaluations":         a.runs,
+		"evaluations":         a.runs + a.cases,
+		"runs":                a.runs,
 		"distinct_nontrivial": len(a.shapes),
 		"nontrivial_runs":     a.nontriv,
 		"rule":                a.spec.Rule,
